@@ -37,16 +37,20 @@ Definition type_ok (c : ecls) (v : json) : bool :=
   | _, _ => false
   end.
 
-Definition const_ok (k : option json) (v : json) : bool :=
-  match k with Some c => top_alias_eq v c | None => true end.
-Definition enum_ok (k : option (list json)) (v : json) : bool :=
-  match k with Some l => existsb (top_alias_eq v) l | None => true end.
+(* replace_bool (recursive) followed by Python ==: booleans only equal booleans at
+   every depth, numbers compare by value, dicts order-insensitively — i.e. js_eq. *)
+Definition lit_eq : json -> json -> bool := js_eq.
 
-(* UniqueItems: items pairwise distinct under replace_bool-at-top-level + Python == *)
+Definition const_ok (k : option json) (v : json) : bool :=
+  match k with Some c => lit_eq v c | None => true end.
+Definition enum_ok (k : option (list json)) (v : json) : bool :=
+  match k with Some l => existsb (lit_eq v) l | None => true end.
+
+(* UniqueItems: items pairwise distinct under replace_bool + Python == *)
 Fixpoint unique_items (l : list json) : bool :=
   match l with
   | [] => true
-  | x :: r => negb (existsb (top_alias_eq x) r) && unique_items r
+  | x :: r => negb (existsb (lit_eq x) r) && unique_items r
   end.
 
 (* combine the crash-or-reject status of several checks: a possible crash dominates *)
